@@ -252,7 +252,7 @@ theorem sim_keep {m : Bool} {qi q : Nat} (cx : Ctx m qi q) {e : Nat} {r1 w : Lis
     (hv : decBody m qi (92 :: e :: r1) = some w) (ih : IH m qi q (e :: r1).length) :
     decBody m q (repA q false (92 :: e :: r1)) = some w := by
   have hq := cx.hq
-  obtain ⟨_, hd⟩ := guard_esc hg
+  have hd := guard_esc hg
   have h48 : e ≠ 48 := by intro h; subst h; simp [isDig] at hd
   rw [repA_cons]
   have hs : step q false 92 (e :: r1) = ([92, e], 1, false) := by
@@ -415,11 +415,11 @@ theorem sim_ctrl {m : Bool} {qi q : Nat} (cx : Ctx m qi q) {e : Nat} {r1 w : Lis
 theorem sim_ident {m : Bool} {qi q : Nat} (cx : Ctx m qi q) {e : Nat} {r1 w : List Nat}
     (hk : ¬ (e = q ∨ e = 92 ∨ e = 114 ∨ (q ≠ 96 ∧ e = 110) ∨ (e = 48 ∧ ¬ r1.head?.any isOct)))
     (hl : lcLen e r1 = 0)
-    (he : e ≠ 120 ∧ e ≠ 110 ∧ e ≠ 116 ∧ e ≠ 102 ∧ e ≠ 118 ∧ e ≠ 98)
+    (he : e ≠ 120 ∧ e ≠ 110 ∧ e ≠ 116 ∧ e ≠ 102 ∧ e ≠ 118 ∧ e ≠ 98) (h117 : e ≠ 117)
     (hg : Guard (92 :: e :: r1) = true)
     (hv : decBody m qi (92 :: e :: r1) = some w) (ih : IH m qi q (e :: r1).length) :
     decBody m q (repA q false (92 :: e :: r1)) = some w := by
-  obtain ⟨h117, hd⟩ := guard_esc hg
+  have hd := guard_esc hg
   obtain ⟨e1, e2, e3, e4, e5, e6⟩ := he
   have hoct : isOct e = false := by
     simp only [isDig, Bool.and_eq_false_imp, decide_eq_true_eq, decide_eq_false_iff_not] at hd
@@ -473,5 +473,269 @@ theorem sim_ident {m : Bool} {qi q : Nat} (cx : Ctx m qi q) {e : Nat} {r1 w : Li
       subst hw
       simp only [List.drop_succ_cons] at hv'
       exact sim_utf8 cx (by omega) hu (guard_drop hg2 _) hv' (ih_mono ih (by simp))
+
+/-! ## `\u` escapes -/
+
+theorem isHex_ne {x : Nat} (h : isHex x = true) : x ≠ 123 ∧ x ≠ 125 := by
+  simp only [isHex, Bool.or_eq_true, Bool.and_eq_true, decide_eq_true_eq] at h; omega
+
+theorem takeWhile_hex_append {ds t : List Nat} (h : ∀ x ∈ ds, isHex x = true) :
+    (ds ++ 125 :: t).takeWhile isHex = ds := by
+  induction ds with
+  | nil => simp [isHex]
+  | cons x ds ih =>
+    have hx := h x (by simp)
+    simp only [List.cons_append, List.takeWhile_cons, hx, if_true]
+    rw [ih (fun y hy => h y (by simp [hy]))]
+
+theorem mem_takeWhile_true {p : Nat → Bool} : ∀ {l : List Nat} {x : Nat}, x ∈ l.takeWhile p → p x = true := by
+  intro l
+  induction l with
+  | nil => intro x h; simp at h
+  | cons a l ih =>
+    intro x h
+    simp only [List.takeWhile_cons] at h
+    split at h
+    · rename_i ha
+      simp only [List.mem_cons] at h
+      rcases h with rfl | h
+      · exact ha
+      · exact ih h
+    · simp at h
+
+theorem split_takeWhile {p : Nat → Bool} (l : List Nat) {y : Nat} (h : l[(l.takeWhile p).length]? = some y) :
+    ∃ r, l = l.takeWhile p ++ y :: r := by
+  have hsplit := List.takeWhile_append_dropWhile (p := p) (l := l)
+  have h' : (l.takeWhile p ++ l.dropWhile p)[(l.takeWhile p).length]? = some y := by rw [hsplit]; exact h
+  rw [List.getElem?_append_right (Nat.le_refl _)] at h'
+  simp only [Nat.sub_self] at h'
+  cases hd : l.dropWhile p with
+  | nil => rw [hd] at h'; simp at h'
+  | cons z zs =>
+    rw [hd] at h'
+    simp only [List.getElem?_cons_zero, Option.some.injEq] at h'
+    subst h'
+    exact ⟨zs, by rw [← hd, hsplit]⟩
+
+/-- `\uHHHH` read by the decoder -/
+theorem esc_u4 {lgc : Bool} {a b c d : Nat} {t : List Nat} (ha : isHex a = true) (hb : isHex b = true)
+    (hc : isHex c = true) (hd : isHex d = true) :
+    escStep lgc 117 (a :: b :: c :: d :: t) = some ([hexNat [a, b, c, d]], 5) := by
+  have := (isHex_ne ha).1
+  simp [escStep, ha, hb, hc, hd, this]
+
+/-- `\u{H…}` read by the decoder -/
+theorem esc_ubrace {lgc : Bool} {ds t : List Nat} (h : ∀ x ∈ ds, isHex x = true) (hne : ds ≠ [])
+    (hv : hexNat ds ≤ 0x10FFFF) :
+    escStep lgc 117 (123 :: (ds ++ 125 :: t)) = some (units (hexNat ds), 3 + ds.length) := by
+  simp only [escStep]
+  simp [takeWhile_hex_append h, hne, hv]
+
+/-- shape of a valid `\u` escape -/
+theorem esc_u_inv {lgc : Bool} {r1 us : List Nat} {k : Nat} (h : escStep lgc 117 r1 = some (us, k)) :
+    (∃ a b c d r2, r1 = a :: b :: c :: d :: r2 ∧ isHex a = true ∧ isHex b = true ∧ isHex c = true ∧ isHex d = true) ∨
+    (∃ ds r2, r1 = 123 :: (ds ++ 125 :: r2) ∧ (∀ x ∈ ds, isHex x = true) ∧ ds ≠ [] ∧ hexNat ds ≤ 0x10FFFF) := by
+  simp only [escStep] at h
+  simp at h
+  cases r1 with
+  | nil => simp at h
+  | cons g r2 =>
+    simp only at h
+    split at h
+    · rename_i hg
+      subst hg
+      right
+      split at h
+      · rename_i hc
+        obtain ⟨h1, h2, h3⟩ := hc
+        obtain ⟨r3, hr3⟩ := split_takeWhile r2 h2
+        refine ⟨r2.takeWhile isHex, r3, ?_, ?_, h1, h3⟩
+        · rw [← hr3]
+        · intro x hx; exact mem_takeWhile_true hx
+      · simp at h
+    · left
+      match r2, h with
+      | b :: c :: d :: r3, h =>
+        simp only at h
+        split at h
+        · rename_i hh; exact ⟨g, b, c, d, r3, rfl, hh.1, hh.2.1, hh.2.2.1, hh.2.2.2⟩
+        · simp at h
+      | [_, _], h => simp at h
+      | [_], h => simp at h
+      | [], h => simp at h
+
+/-- the part of `uniM` after the digits have been found -/
+def uniTail (q : Nat) (an : Bool) (ds : List Nat) (skip : Nat) : Res :=
+  if ds = [] ∨ 0x10FFFF ≤ hexNat ds ∨ hexNat ds = 60 ∨ (an ∧ 48 ≤ hexNat ds ∧ hexNat ds ≤ 57) then ([92, 117], 1, false) else
+  if hexNat ds = 0 then ([92, 120, 48, 48], skip, false)
+  else if hexNat ds = 13 then ([92, 114], skip, false)
+  else if hexNat ds = 10 ∧ q ≠ 96 then ([92, 110], skip, false)
+  else if 0xD800 ≤ hexNat ds ∧ hexNat ds ≤ 0xDFFF then ([92, 117], 1, false)
+  else if hexNat ds = 92 ∨ (hexNat ds < 256 ∧ q = hexNat ds) ∨ (q = 96 ∧ hexNat ds = 36) then (92 :: utf8Enc (hexNat ds), skip, false)
+  else (utf8Enc (hexNat ds), skip, false)
+
+theorem uniM_u4 {q : Nat} {an : Bool} {a b c d : Nat} {r2 : List Nat} (ha : isHex a = true) (hb : isHex b = true)
+    (hc : isHex c = true) (hd : isHex d = true) :
+    uniM q an (a :: b :: c :: d :: r2) = uniTail q an [a, b, c, d] 5 := by
+  have := (isHex_ne ha).1
+  simp [uniM, uniTail, ha, hb, hc, hd, this]
+
+theorem uniM_brace {q : Nat} {an : Bool} {ds r2 : List Nat} (h : ∀ x ∈ ds, isHex x = true) :
+    uniM q an (123 :: (ds ++ 125 :: r2)) =
+      if 6 < ds.length then ([92, 117], 1, false) else uniTail q an ds (1 + ds.length + 2) := by
+  simp only [uniM, uniTail]
+  simp [takeWhile_hex_append h]
+
+
+theorem hexNat_four {a b c d : Nat} (ha : isHex a = true) (hb : isHex b = true) (hc : isHex c = true)
+    (hd : isHex d = true) : hexNat [a, b, c, d] < 65536 := by
+  have h1 := hexV_le ha; have h2 := hexV_le hb; have h3 := hexV_le hc; have h4 := hexV_le hd
+  simp only [hexNat, List.foldl_cons, List.foldl_nil]
+  omega
+
+theorem units_small {n : Nat} (h : n < 65536) : units n = [n] := by simp [units, h]
+
+/-- a `\u` escape that is kept: `\u` is copied, the rest of the escape is inert -/
+theorem sim_uni_kept {m : Bool} {qi q : Nat} (cx : Ctx m qi q) {p r2 us w : List Nat}
+    (hp : ∀ x ∈ p, Inert q x)
+    (hesc : ∀ (lgc : Bool) (t : List Nat), escStep lgc 117 (p ++ t) = some (us, 1 + p.length))
+    (hg : Guard (92 :: 117 :: (p ++ r2)) = true)
+    (hv : decBody m qi (92 :: 117 :: (p ++ r2)) = some w) (ih : IH m qi q (117 :: (p ++ r2)).length) :
+    decBody m q ([92, 117] ++ repA q false ((117 :: (p ++ r2)).drop 1)) = some w := by
+  have hq := cx.hq
+  have hdrop : (117 :: (p ++ r2)).drop (1 + p.length) = r2 := by
+    rw [Nat.add_comm]; simp
+  have : (117 :: (p ++ r2)).drop 1 = p ++ r2 := rfl
+  rw [this, repA_inert_run' p hp]
+  have h2 : [92, 117] ++ (p ++ repA q false r2) = (92 :: 117 :: p) ++ repA q false ((117 :: (p ++ r2)).drop (1 + p.length)) := by
+    rw [hdrop]; simp
+  rw [h2]
+  refine finish_esc cx hv hg (hesc _ _) (fun t => ?_) ih
+  have : (92 :: 117 :: p) ++ t = 92 :: 117 :: (p ++ t) := by simp
+  rw [this, dec_of_esc hq (hesc _ t)]
+  have : (117 :: (p ++ t)).drop (1 + p.length) = t := by rw [Nat.add_comm]; simp
+  rw [this]
+
+/-- the common part of the two `\u` forms: `p` are the bytes of the escape after `\u` -/
+theorem sim_uniTail {m : Bool} {qi q : Nat} (cx : Ctx m qi q) {p ds r2 us w : List Nat}
+    (hp : ∀ x ∈ p, Inert q x)
+    (hesc : ∀ (lgc : Bool) (t : List Nat), escStep lgc 117 (p ++ t) = some (us, 1 + p.length))
+    (hus : us = units (hexNat ds)) (hlt : hexNat ds ≤ 0x10FFFF)
+    (hg : Guard (92 :: 117 :: (p ++ r2)) = true)
+    (hv : decBody m qi (92 :: 117 :: (p ++ r2)) = some w) (ih : IH m qi q (117 :: (p ++ r2)).length)
+    (hstep : step q false 92 (117 :: (p ++ r2)) = uniTail q false ds (1 + p.length)) :
+    decBody m q (repA q false (92 :: 117 :: (p ++ r2))) = some w := by
+  have hq := cx.hq
+  have hkeep := sim_uni_kept cx hp hesc hg hv ih
+  rw [repA_cons, hstep]
+  unfold uniTail
+  split
+  · exact hkeep
+  · rename_i h1
+    simp only [not_or, not_and, Bool.false_eq_true, false_and, not_false_eq_true, and_true] at h1
+    obtain ⟨_, h1b, h1c⟩ := h1
+    split
+    · rename_i h0
+      refine finish_esc cx hv hg (hesc _ _) (fun t => ?_) ih
+      rw [hus, h0]
+      exact dec_hex4 hq rfl rfl
+    · split
+      · rename_i h13
+        refine finish_esc cx hv hg (hesc _ _) (fun t => ?_) ih
+        rw [hus, h13]; exact dec_esc_r hq
+      · split
+        · rename_i h10
+          refine finish_esc cx hv hg (hesc _ _) (fun t => ?_) ih
+          rw [hus, h10.1]; exact dec_esc_n hq
+        · rename_i h13 h10
+          split
+          · exact hkeep
+          · rename_i hsur
+            split
+            · rename_i hesc'
+              -- an ASCII character that must stay escaped
+              have hn : hexNat ds < 128 := by
+                rcases hesc' with h | ⟨_, h⟩ | ⟨_, h⟩
+                · omega
+                · rcases hq with h' | h' | h' <;> omega
+                · omega
+              have henc : utf8Enc (hexNat ds) = [hexNat ds] := by simp [utf8Enc, hn]
+              rw [henc]
+              refine finish_esc cx hv hg (hesc _ _) (fun t => ?_) ih
+              rw [hus, units_small (by omega)]
+              apply dec_esc_ident hq hn
+              · rcases hesc' with h | ⟨_, h⟩ | ⟨_, h⟩
+                · rw [h]; rfl
+                · rcases hq with h' | h' | h' <;> (rw [← h, h']; rfl)
+                · rw [h]; rfl
+              · rcases hesc' with h | ⟨_, h⟩ | ⟨_, h⟩
+                · omega
+                · rcases hq with h' | h' | h' <;> omega
+                · omega
+            · rename_i hraw
+              refine finish_esc cx hv hg (hesc _ _) (fun t => ?_) ih
+              rw [hus]
+              by_cases hn : hexNat ds < 128
+              · have henc : utf8Enc (hexNat ds) = [hexNat ds] := by simp [utf8Enc, hn]
+                rw [henc, units_small (by omega)]
+                by_cases h10' : hexNat ds = 10
+                · have hq96 : q = 96 := by
+                    by_cases h : q = 96
+                    · exact h
+                    · exact absurd ⟨h10', h⟩ h10
+                  subst hq96
+                  rw [h10']; exact dec_lf_tmpl
+                · apply dec_plain hn (fun h => hraw (Or.inr (Or.inl ⟨by omega, h.symm⟩)))
+                    (fun h => hraw (Or.inl h)) h10' h13
+                  rintro ⟨a1, a2, _⟩
+                  exact hraw (Or.inr (Or.inr ⟨a2, a1⟩))
+              · exact dec_utf8Enc hq (by omega) (by omega) hsur
+
+theorem step_uni {q : Nat} {r1 : List Nat} (hq : IsQ q) : step q false 92 (117 :: r1) = uniM q false r1 := by
+  have hk : ¬ (117 = q ∨ 117 = 92 ∨ 117 = 114 ∨ (q ≠ 96 ∧ 117 = 110) ∨ (117 = 48 ∧ ¬ r1.head?.any isOct)) := by
+    rcases hq with h | h | h <;> omega
+  simp only [step, if_true, escM, if_neg hk]
+  simp [lcLen]
+
+/-- `\uHHHH` and `\u{H…}` -/
+theorem sim_uni {m : Bool} {qi q : Nat} (cx : Ctx m qi q) {r1 w : List Nat}
+    (hg : Guard (92 :: 117 :: r1) = true)
+    (hv : decBody m qi (92 :: 117 :: r1) = some w) (ih : IH m qi q (117 :: r1).length) :
+    decBody m q (repA q false (92 :: 117 :: r1)) = some w := by
+  have hq := cx.hq
+  obtain ⟨us, k, v', hs, _, _⟩ := valid_cons hv
+  rw [decStep_bsl cx.hqi] at hs
+  rcases esc_u_inv hs with ⟨a, b, c, d, r2, rfl, ha, hb, hc, hd⟩ | ⟨ds, r2, rfl, hds, hne, hle⟩
+  · have hp : ∀ x ∈ [a, b, c, d], Inert q x := by
+      intro x hx; simp at hx
+      rcases hx with rfl | rfl | rfl | rfl <;> (apply inert_of_hex hq; assumption)
+    have h4 := hexNat_four ha hb hc hd
+    exact sim_uniTail (p := [a, b, c, d]) (ds := [a, b, c, d]) (r2 := r2) cx hp
+      (fun lgc t => esc_u4 ha hb hc hd) (units_small h4).symm (by omega) hg hv ih
+      (by rw [step_uni hq]; exact uniM_u4 ha hb hc hd)
+  · have hp : ∀ x ∈ 123 :: (ds ++ [125]), Inert q x := by
+      intro x hx
+      simp only [List.mem_cons, List.mem_append, List.mem_nil_iff, or_false] at hx
+      rcases hx with rfl | hx | rfl
+      · rcases hq with h | h | h <;> (unfold Inert; omega)
+      · exact inert_of_hex hq (hds x hx)
+      · rcases hq with h | h | h <;> (unfold Inert; omega)
+    have hassoc : ∀ t : List Nat, (123 :: (ds ++ [125])) ++ t = 123 :: (ds ++ 125 :: t) := by intro t; simp
+    have hlen : 1 + (123 :: (ds ++ [125])).length = 3 + ds.length := by simp; omega
+    have hesc : ∀ (lgc : Bool) (t : List Nat),
+        escStep lgc 117 ((123 :: (ds ++ [125])) ++ t) = some (units (hexNat ds), 1 + (123 :: (ds ++ [125])).length) := by
+      intro lgc t; rw [hassoc, hlen]; exact esc_ubrace hds hne hle
+    rw [← hassoc] at hg hv ih ⊢
+    by_cases h6 : 6 < ds.length
+    · rw [repA_cons]
+      have : step q false 92 (117 :: ((123 :: (ds ++ [125])) ++ r2)) = ([92, 117], 1, false) := by
+        rw [step_uni hq, hassoc, uniM_brace hds, if_pos h6]
+      rw [this]
+      exact sim_uni_kept cx hp hesc hg hv ih
+    · refine sim_uniTail (ds := ds) cx hp hesc rfl hle hg hv ih ?_
+      rw [step_uni hq, hassoc, uniM_brace hds, if_neg h6]
+      congr 1
+      simp; omega
+
 
 end Verif.Proofs.JsString
